@@ -78,3 +78,156 @@ Proof.
     apply negb_true_iff in NI. unfold to_incremental. rewrite NI.
     rewrite (first_bad_cum_refused _ H). reflexivity.
 Qed.
+
+(* ---- incremental side ---- *)
+Lemma chain_broken_tail c0 : forall rest p cur,
+  map kshape cur = map kshape (cvals p) -> NoDup (keys cur) ->
+  chain_brokenb c0 p rest = true ->
+  cum_tail SD (ps c0) (pe c0) (cmeta c0) (ev p) cur rest = Err TriangleError.
+Proof.
+  induction rest as [|n r IH]; intros p cur SH ND H; [discriminate|].
+  cbn [chain_brokenb] in H. cbn [cum_tail].
+  destruct (prev n) as [pn|] eqn:P; [|discriminate].
+  destruct (pn =? ev p) eqn:Q; cbn [negb] in *; [|reflexivity].
+  apply Z.eqb_eq in Q. subst pn.
+  pose proof (keys_kshape _ _ SH) as KC.
+  destruct (keyset_eqb (cvals p) (cvals n)) eqn:KS; cbn [negb] in H.
+  - destruct (inc_tail_okb SD c0 p [n]) eqn:OK; [|discriminate].
+    apply inc_tail_okb_cons in OK as [In' [K [Dn [_ [L [C _]]]]]]. cbn [carry_a SD] in C.
+    rewrite <- (vals_compatb_shape _ _ _ _ _ SH) in C.
+    pose proof (vals_compatb_keys _ _ _ _ C) as KK.
+    assert (NDn : NoDup (keys (cvals n))) by (rewrite <- KK; exact ND).
+    destruct (ckey_parts _ _ K) as [Ks [Ke Km]].
+    destruct (zip_add_sub _ _ _ C) as [s [E1 [E2 [E3 E4]]]].
+    assert (NDs : NoDup (keys s)) by (rewrite E4; exact ND).
+    rewrite values_add_zip, E1 by auto. cbn [bind].
+    rewrite mk_cum_ok by (rewrite ?Ks, ?Ke; auto). cbn [bind].
+    rewrite (IH n s E3 NDs H). reflexivity.
+  - unfold values_add. rewrite values_combine_keys_differ; [reflexivity|].
+    now rewrite (keyset_eqb_keys _ _ _ KC).
+Qed.
+
+Lemma first_bad_inc_refused : forall rows,
+  first_bad_is_broken rows = true ->
+  mapM (row_to_cumulative SD) rows = Err TriangleError.
+Proof.
+  induction rows as [|r rs IH]; intros H; [discriminate|]. cbn [first_bad_is_broken] in H.
+  cbn [mapM]. destruct (inc_row_okb SD r) eqn:OK.
+  - destruct (row_cum_inc r OK) as [o [E _]]. rewrite E. cbn [bind]. now rewrite (IH H).
+  - destruct r as [|c0 rest]; [discriminate|]. cbn [row_brokenb] in H.
+    destruct (prev c0) as [p0|] eqn:P0; [|discriminate].
+    destruct (p0 + 1 =? ps c0) eqn:Q; cbn [negb] in H.
+    + rewrite !andb_true_iff in H. destruct H as [[[_ D0] N0] B]. apply nodupb_NoDup in N0.
+      cbn [row_to_cumulative off_check SD]. rewrite P0, Q. cbn [negb].
+      rewrite mk_cum_ok by auto. cbn [bind].
+      rewrite (chain_broken_tail c0 rest c0 (cvals c0) eq_refl N0 B). reflexivity.
+    + apply Z.eqb_neq in Q. rewrite (first_prev_refused c0 rest p0 P0 Q). reflexivity.
+Qed.
+
+(* a complete incremental row: the cumulative row it produces has the original cells as its increments *)
+Lemma cum_inc_tail_struct c0 : forall rest p cur pc,
+  inc_tail_okb SD c0 p rest = true ->
+  map kshape cur = map kshape (cvals p) -> NoDup (keys cur) ->
+  ev pc = ev p -> cvals pc = cur ->
+  exists cums, cum_tail SD (ps c0) (pe c0) (cmeta c0) (ev p) cur rest = Ok cums
+               /\ inc_tail_structb pc cums rest = true.
+Proof.
+  induction rest as [|n r IH]; intros p cur pc H SH ND EP' EC.
+  - exists []; split; reflexivity.
+  - apply inc_tail_okb_cons in H as [In' [K [Dn [P [L [C T]]]]]].
+    cbn [carry_a SD] in C.
+    rewrite <- (vals_compatb_shape _ _ _ _ _ SH) in C.
+    pose proof (vals_compatb_keys _ _ _ _ C) as KK.
+    assert (NDn : NoDup (keys (cvals n))) by (rewrite <- KK; exact ND).
+    destruct (ckey_parts _ _ K) as [Ks [Ke Km]].
+    destruct (zip_add_sub _ _ _ C) as [s [E1 [E2 [E3 E4]]]].
+    assert (NDs : NoDup (keys s)) by (rewrite E4; exact ND).
+    assert (Dn' : cell_dates_ok (ps c0) (pe c0) (ev n) = true) by (rewrite Ks, Ke; auto).
+    set (cn := mkCell KCum (ps c0) (pe c0) (ev n) None (cmeta c0) s).
+    destruct (IH n s cn T E3 NDs eq_refl eq_refl) as [cums [I1 I2]].
+    cbn [cum_tail]. rewrite P, Z.eqb_refl. cbn [negb].
+    rewrite values_add_zip, E1 by auto. cbn [bind].
+    rewrite mk_cum_ok by auto. cbn [bind]. rewrite I1. cbn [bind].
+    eexists; split; [reflexivity|].
+    cbn [inc_tail_structb]. fold cn. rewrite I2, andb_true_r.
+    unfold inc_cell_okb. subst cn. cbn [ckind ps pe ev prev cmeta cvals].
+    unfold is_inc in In'. destruct (ckind n); try discriminate. cbn [kind_eqb].
+    rewrite Ks, Ke, Km, !Z.eqb_refl, (proj2 (meta_seqb_eq _ _) eq_refl).
+    rewrite P, EP'. cbn [opt_eqb]. rewrite Z.eqb_refl.
+    rewrite E4, KK, keys_eqb_refl. cbn [andb]. rewrite EC.
+    apply (zip_sub_values_ok cur s cur s);
+      [now rewrite E4 | intros; now apply assoc_In_nodup | intros; now apply assoc_In_nodup | exact E2].
+Qed.
+
+Lemma row_cum_struct row :
+  inc_row_okb SD row = true ->
+  exists cums, row_to_cumulative SD row = Ok cums /\ inc_row_structb cums row = true
+               /\ Forall (fun c => ckind c = KCum) cums.
+Proof.
+  destruct row as [|c0 rest]; [discriminate|]. cbn [inc_row_okb].
+  rewrite !andb_true_iff, (opt_eqb_eq Z.eqb Z.eqb_eq). intros [[[[I0 D0] N0] P0] T].
+  apply nodupb_NoDup in N0.
+  set (c0' := mkCell KCum (ps c0) (pe c0) (ev c0) None (cmeta c0) (cvals c0)).
+  destruct (cum_inc_tail_struct c0 rest c0 (cvals c0) c0' T eq_refl N0 eq_refl eq_refl)
+    as [cums [I1 I2]].
+  cbn [row_to_cumulative off_check SD]. rewrite P0.
+  replace (ps c0 - 1 + 1 =? ps c0) with true by (symmetry; apply Z.eqb_eq; lia). cbn [negb].
+  rewrite mk_cum_ok by auto. cbn [bind]. rewrite I1. cbn [bind].
+  eexists; split; [reflexivity|]. split.
+  - cbn [inc_row_structb]. fold c0'. rewrite I2, andb_true_r.
+    unfold inc_cell_okb. subst c0'. cbn [ckind ps pe ev prev cmeta cvals].
+    unfold is_inc in I0. destruct (ckind c0); try discriminate. cbn [kind_eqb].
+    rewrite !Z.eqb_refl, (proj2 (meta_seqb_eq _ _) eq_refl), P0. cbn [opt_eqb].
+    rewrite Z.eqb_refl, keys_eqb_refl. cbn [andb].
+    apply copy_values_ok. intros; now apply assoc_In_nodup.
+  - constructor; [reflexivity|]. eapply row_cum_kinds_tail; eauto.
+Qed.
+
+Lemma Forall2_flip' {A B} (R : A -> B -> Prop) l l' :
+  Forall2 R l l' -> Forall2 (fun b a => R a b) l' l.
+Proof. induction 1; constructor; auto. Qed.
+
+Lemma forallb_concat {A} (f : A -> bool) ls :
+  Forall (fun l => Forall (fun a => f a = true) l) ls -> forallb f (concat ls) = true.
+Proof.
+  induction 1 as [|l ls H _ IH]; [reflexivity|]. cbn [concat]. rewrite forallb_app, IH, andb_true_r.
+  apply forallb_forall. now apply Forall_forall.
+Qed.
+
+Lemma model_meets_spec_inc x :
+  spec_inc x (to_cumulative SD x) (bind (to_cumulative SD x) (to_incremental SD)) = true.
+Proof.
+  unfold spec_inc. rewrite andb_true_iff. split.
+  - destruct (inc_hyp x) eqn:H; [|reflexivity]. cbn [implb].
+    unfold inc_hyp in H. rewrite !andb_true_iff in H. destruct H as [[[NI RO] OK] EQ].
+    apply cells_eqb_eq in EQ. set (rows := rows_of x) in *.
+    pose proof (rows_asc_of _ _ (inc_row_okb_asc SD) OK) as HA.
+    destruct (tri_cum_inc _ RO OK) as [c [E1 E2]]. rewrite EQ in E1, E2.
+    rewrite E1. cbn [bind]. rewrite E2, res_eqb_refl, andb_true_r.
+    (* the same result, row by row *)
+    assert (IX : is_incremental (concat rows) = true) by now rewrite EQ.
+    rewrite <- EQ in E1. rewrite to_cumulative_rows in E1 by auto.
+    destruct (mapM_Forall (row_to_cumulative SD)
+                (fun r o => (inc_row_structb o r = true /\ Forall (fun y => ckind y = KCum) o)
+                            /\ (row_sim r o /\ head_inc false o)) rows) as [outs [E F]].
+    { pose proof (rows_okb_row_key _ RO) as HK. apply forallb_Forall in OK.
+      rewrite Forall_forall in *. intros r Hr.
+      destruct (row_cum_struct r (OK r Hr)) as [o [Eo [S Kc]]]. exists o.
+      destruct (row_cum_shape SD r o (HK r Hr) Eo) as [S1 S2].
+      repeat split; auto; try apply S1. eapply head_inc_of; eauto. }
+    rewrite E in E1. cbn [bind] in E1. injection E1 as <-.
+    apply Forall2_and in F as [F1 F2]. apply Forall2_and in F1 as [F1 F1'].
+    apply Forall2_and in F2 as [F2 F3].
+    assert (RO' : rows_okb outs = true) by now rewrite (rows_okb_ext _ _ F2).
+    assert (AS' : forallb row_ascb outs = true) by now rewrite (rows_ascb_ext _ _ F2).
+    rewrite (rows_of_concat outs RO' AS'), cells_eqb_refl, andb_true_r.
+    rewrite (is_incremental_concat_false outs (Forall2_right _ _ _ F3)). cbn [negb andb].
+    rewrite (rows_structb_Forall2 _ _ (Forall2_flip' _ _ _ F1)), andb_true_r.
+    apply forallb_concat. apply (Forall2_right _ _ _) in F1'.
+    eapply Forall_impl; [|exact F1']. intros l Hl. eapply Forall_impl; [|exact Hl].
+    intros y Hy. now rewrite Hy.
+  - destruct (is_incremental x) eqn:NI; [|reflexivity]. cbn [andb].
+    destruct (first_bad_is_broken (rows_of x)) eqn:H; [|reflexivity]. cbn [implb].
+    unfold to_cumulative. rewrite NI. cbn [negb].
+    rewrite (first_bad_inc_refused _ H). reflexivity.
+Qed.
